@@ -24,14 +24,14 @@ TOKENS = ["X-Alpha", "x-beta", "X-GAMMA", "Accept", "X-Req-Id", "Cache-Control",
 
 
 @contextlib.contextmanager
-def http_world(seed=0, **kw):
+def http_world(seed=0, extra=(), **kw):
     clock = SimTime(now=0.0, default=0.0)
     extra = [
         ("ioflo.aio.http.serving", "datetime", SimDatetimeModule(clock)),
         ("ioflo.aio.http.clienting", "random", SeededRandomModule(_random.Random(seed))),
         ("ioflo.aio.http.clienting", "time", clock),
         ("ioflo.aio.http.serving", "sys", _SysShim()),
-    ]
+    ] + list(extra)
     with world(extra=extra, **kw) as net:
         net.clock = clock
         yield net
